@@ -2052,10 +2052,12 @@ class QuantifiedConditional(LogicalBinaryOperator, ABC):
         # a nested query (an / the inside the condition) that was evaluated has bound its own value besides the one of
         # its variable: kept together, else it is evaluated again with its variable bound already and counts one
         # solution
+        # (likewise the element that a flatten(...) in the condition stands for: it is chosen besides the value of the
+        # variable whose collection is flattened)
         nested_queries = [
             node._id_
             for node in [self.condition, *self.condition._descendants_]
-            if isinstance(node, ResultQuantifier)
+            if isinstance(node, (ResultQuantifier, Flatten))
         ]
         return nested_queries + [
             v.id_
